@@ -1,6 +1,6 @@
 (** Extraction of the executable models for the correspondence runs.
     ExtrOcamlBasic only; N, positive, nat stay extracted datatypes. *)
 From Coq Require Import Extraction ExtrOcamlBasic.
-From RV Require Import Model.Base Model.Bytes Model.Storage Model.Decoder Model.Loader Model.Builder Model.Disasm Inst.Run Inst.Run2.
+From RV Require Import Model.Base Model.Bytes Model.Storage Model.Decoder Model.Loader Model.Builder Model.Disasm Model.Lift Inst.Run Inst.Run2.
 Extraction Language OCaml.
-Extraction "model.ml" Storage.c19_run_case Storage.tok_of_len Run.c11_run_case Run.c15_eval_case Run.run_parse_case Run.run_asm_case Run.feed_case Run.feed_case_prefix Bytes.bytes_of_word Run.load_case Run.assemble_module Run.bld_step Run.bld_find Builder.bnew Builder.finish Run2.dis_case Run2.dis_own_case Disasm.tool_name.
+Extraction "model.ml" Storage.c19_run_case Storage.tok_of_len Run.c11_run_case Run.c15_eval_case Run.run_parse_case Run.run_asm_case Run.feed_case Run.feed_case_prefix Bytes.bytes_of_word Run.load_case Run.assemble_module Run.bld_step Run.bld_find Builder.bnew Builder.finish Run2.dis_case Run2.dis_own_case Disasm.tool_name Run2.lift_case.
